@@ -110,3 +110,45 @@ package fox
 //@ func (*recorder).EnableFullDuplex props C14
 //@   requires r != nil
 //@   ensures !implements(r.ResponseWriter, fullDuplexer) ==> errIs(result, http.ErrNotSupported)
+
+//@ -- ---------------------------------------------------------------- C14: the Context helpers send exactly what they are given
+//@ -- (ghost state of the context's current writer; the header map is abstracted by hdrGet / the Set call)
+//@ -- Fprintf and Copy only reach the writer through Write / ReadFrom
+//@ extern Fprintf in fmt
+//@   modifies wBody[w], wFinal[w], wFirst[w]
+//@   ensures wBody[w] >= old(wBody[w]) && wFinal[w] >= old(wFinal[w]) && (old(wFinal[w]) >= 1 ==> wFinal[w] == old(wFinal[w]) && wFirst[w] == old(wFirst[w]))
+//@ extern Copy in io
+//@   modifies wBody[dst], wFinal[dst], wFirst[dst]
+//@   ensures wBody[dst] >= old(wBody[dst]) && wFinal[dst] >= old(wFinal[dst]) && (old(wFinal[dst]) >= 1 ==> wFinal[dst] == old(wFinal[dst]) && wFirst[dst] == old(wFirst[dst]))
+//@ extern Redirect in net/http
+//@   modifies heap, wBody[w], wFinal[w], wFirst[w], wInfo[w]
+
+//@ func (*cTx).String props C14 partial
+//@   requires c != nil && c.w != nil
+//@   modifies heap, wFinal[c.w], wFirst[c.w], wInfo[c.w], wBody[c.w]
+//@   assert-at call (Header).Set#1 : default-type: same(arg_key, "Content-Type") && same(arg_value, "text/plain; charset=UTF-8") && len(hdrGet(wHeader(c.w, hCalls), "Content-Type")) == 0
+//@   assert-at call ResponseWriter.WriteHeader#1 : status: arg_self == c.w && arg_statusCode == code && wFinal[c.w] == old(wFinal[c.w]) && wBody[c.w] == old(wBody[c.w])
+//@   assert-at call Fprintf#1 : body: arg_w == c.w && same(arg_format, format) && arg_a == values && wBody[c.w] == old(wBody[c.w]) && (!informational(code) ==> wFinal[c.w] == old(wFinal[c.w]) + 1)
+//@   ensures one-status: !informational(code) ==> wFinal[c.w] >= old(wFinal[c.w]) + 1
+
+//@ func (*cTx).Blob props C14 partial
+//@   requires c != nil && c.w != nil
+//@   modifies heap, wFinal[c.w], wFirst[c.w], wInfo[c.w], wBody[c.w]
+//@   assert-at call (Header).Set#1 : type: same(arg_key, "Content-Type") && same(arg_value, contentType)
+//@   assert-at call ResponseWriter.WriteHeader#1 : status: arg_self == c.w && arg_statusCode == code && wFinal[c.w] == old(wFinal[c.w]) && wBody[c.w] == old(wBody[c.w])
+//@   assert-at call ResponseWriter.Write#1 : body: arg_self == c.w && arg_arg0 == buf && wBody[c.w] == old(wBody[c.w])
+//@   ensures bytes: wBody[c.w] <= old(wBody[c.w]) + len(buf) && (err == nil ==> wBody[c.w] == old(wBody[c.w]) + len(buf))
+
+//@ func (*cTx).Stream props C14 partial
+//@   requires c != nil && c.w != nil
+//@   modifies heap, wFinal[c.w], wFirst[c.w], wInfo[c.w], wBody[c.w]
+//@   assert-at call (Header).Set#1 : type: same(arg_key, "Content-Type") && same(arg_value, contentType)
+//@   assert-at call ResponseWriter.WriteHeader#1 : status: arg_self == c.w && arg_statusCode == code && wFinal[c.w] == old(wFinal[c.w]) && wBody[c.w] == old(wBody[c.w])
+//@   assert-at call Copy#1 : body: arg_dst == c.w && arg_src == r && wBody[c.w] == old(wBody[c.w])
+
+//@ func (*cTx).Redirect props C14
+//@   requires c != nil && c.w != nil
+//@   modifies heap, wFinal[c.w], wFirst[c.w], wInfo[c.w], wBody[c.w]
+//@   assert-at call Redirect#1 : as-given: arg_w == c.w && arg_r == c.req && same(arg_url, url) && arg_code == code && 300 <= code && code <= 308
+//@   ensures rejected: (code < 300 || code > 308) ==> result == ErrInvalidRedirectCode && wFinal[c.w] == old(wFinal[c.w]) && wBody[c.w] == old(wBody[c.w]) && wInfo[c.w] == old(wInfo[c.w])
+//@   ensures accepted: 300 <= code && code <= 308 ==> result == nil
